@@ -107,14 +107,16 @@ Lead == {"zero", "sx", "obj"}
 LeadPairs == {<<"zero", "zero">>, <<"obj", "sx">>, <<"abuf", "zero">>}
 HostileLeads == {"zero", "regex", "arr12", "sjson"}
 HostileMates == IF Quick THEN HostileLeads ELSE HostileLeads \cup CoreSet
+\* (a callback does not stand third: no built-in takes one there; hooks, structures and texts do: thisArg, indent, inserted element)
+ThirdHostile == HostileSet \ MutClasses
 Pairs == (IF Quick THEN {<<xa, ya>> : xa \in CoreSet, ya \in CoreSet} \cup {<<xa, ya>> : xa \in Lead, ya \in ExtraSet}
                         \cup {<<xa, ya>> : xa \in ExtraSet, ya \in Lead}
           ELSE {<<xa, ya>> : xa \in PlainSet, ya \in PlainSet})
          \cup {<<hc, ya>> : hc \in HostileSet, ya \in (IF Quick THEN {"zero"} ELSE HostileMates)}
-         \cup {<<xa, hc>> : xa \in HostileMates, hc \in HostileSet}
+         \cup {<<xa, hc>> : xa \in (IF Quick THEN HostileLeads \ {"zero"} ELSE HostileMates), hc \in HostileSet}
 Triples == (IF Quick THEN {lp \o <<za>> : lp \in LeadPairs, za \in PlainSet}
             ELSE {<<xa, ya, za>> : xa \in Lead \cup {"abuf"}, ya \in Lead, za \in PlainSet})
-           \cup {<<xa, "zero", hc>> : xa \in (IF Quick THEN {"zero"} ELSE HostileLeads), hc \in HostileSet}
+           \cup {<<xa, "zero", hc>> : xa \in (IF Quick THEN {"zero"} ELSE HostileLeads), hc \in ThirdHostile}
 ArgVectors == {<<>>} \cup {<<xa>> : xa \in ArgSet} \cup Pairs \cup Triples
 \* the vectors given (quick tier) to the receivers that vary the shape / value of a receiver kind (empty array, empty string,
 \* NaN, -Infinity, 1e21): every class alone, and the core classes after each lead.  Thorough: all vectors.
@@ -134,11 +136,15 @@ AllVectors == ArgVectors \cup ViewVectors \cup SmallPairs
 AllClasses == ArgSet \cup SmallIntSet
 \* the pairs given to the binary operator forms (element store, call, construct): a lead and a core value, or any class and a number
 OpPair(av) == Len(av) = 2 /\ ((av[1] \in Lead /\ av[2] \in CoreSet) \/ av[2] = "zero")
+\* the vectors after which (quick tier) an object returned by the call is used (UseOps): one argument at most, a lead and a core value,
+\* everything that starts with a buffer (views), the small-integer vectors.  Thorough: all.
+UseVector(av) == ~Quick \/ Len(av) <= 1 \/ av \in ViewVectors \/ av \in SmallPairs \/ av[1] = "abuf"
+                 \/ (Len(av) = 2 /\ av[1] \in Lead /\ av[2] \in CoreSet)
 \* which receivers get a vector: groups
 Grp(cond, gn) == IF cond THEN <<gn>> ELSE <<>>
 VecGroups(av) == Grp(av \in ArgVectors, "kinds") \o Grp(av \in ArgVectors /\ (~Quick \/ ShortVector(av)), "variants")
                  \o Grp(av \in ArgVectors /\ TinyVector(av), "hostile") \o Grp(av \in ViewVectors, "global")
-                 \o Grp(av \in SmallPairs, "indexed") \o Grp(av \in ArgVectors /\ OpPair(av), "oppair")
+                 \o Grp(av \in SmallPairs, "indexed") \o Grp(av \in ArgVectors /\ OpPair(av), "oppair") \o Grp(UseVector(av), "use")
 \* ---- receivers (rendered by the driver, RECEIVERS of checks/c04_driver.py) ----
 KindReceivers == {"global", "Math", "JSON", "Object", "Array", "Number", "String", "Boolean", "Date", "RegExp", "Function", "Error", "console",
                   "str", "arr", "num", "int", "obj", "fn", "regex", "tarr", "f64", "abuf", "err", "bool", "native", "arrow"}
@@ -225,7 +231,7 @@ GridLaw == ph = "start" =>
              /\ \A ac \in ArgSet : /\ <<ac>> \in ArgVectors
                                    /\ \E av \in ArgVectors : Len(av) = 2 /\ av[1] = ac
                                    /\ \E av \in ArgVectors : Len(av) = 2 /\ av[2] = ac
-                                   /\ \E av \in ArgVectors : Len(av) = 3 /\ av[3] = ac
+                                   /\ ac \notin MutClasses => \E av \in ArgVectors : Len(av) = 3 /\ av[3] = ac
              /\ \A rt \in SeqSet(Routes) : (rt \o "_ninf") \in Routed /\ \E hv \in HugeVals : (rt \o "_" \o hv) \in Routed
              /\ \A av \in AllVectors : Len(av) <= 3 /\ \A ai \in 1..Len(av) : av[ai] \in AllClasses
              /\ Huge \cap AllRouted = {rc \in AllRouted : \E rt \in SeqSet(Routes) : rc = rt \o "_p31"} /\ Huge \subseteq ArgSet \cup AllRouted
@@ -235,9 +241,11 @@ GridLaw == ph = "start" =>
              /\ PlainSet \cap HostileSet = {}
              /\ Cardinality(HostileSet) = Len(MutKinds) + 2 * Cardinality(HookKinds) + Cardinality(StructClasses) + Cardinality(TextClasses)
              /\ HookKinds \subseteq SeqSet(MutKinds) /\ RadixTexts \subseteq TextClasses /\ HostileLeads \subseteq PlainSet /\ TinySet \subseteq ArgSet
-             /\ \A hc \in HostileSet : \A ld \in HostileLeads : <<ld, hc>> \in ArgVectors
+             /\ \A hc \in HostileSet : \A ld \in HostileLeads \ {"zero"} : <<ld, hc>> \in ArgVectors
              /\ \A mc \in MutClasses : \A rn \in HostileReceivers : \E av \in ArgVectors : av = <<mc>> /\ SeqHas(VecGroups(av), "hostile")
-             /\ \A av \in AllVectors : VecGroups(av) # <<>>
+             /\ \A av \in AllVectors : VecGroups(av) # <<>> /\ VecGroups(av) # <<"use">>
+             /\ \A av \in ViewVectors : UseVector(av)
+             /\ \A za \in PlainSet : \E av \in ArgVectors : Len(av) = 3 /\ av[1] = "abuf" /\ av[3] = za /\ UseVector(av)
              /\ \A rn \in AllReceivers : \E av \in AllVectors : \E gi \in 1..Len(RecvGroups(rn)) : SeqHas(VecGroups(av), RecvGroups(rn)[gi])
              /\ \A of \in SmallIntSet : \A ln \in SmallIntSet : <<"abuf", of, ln>> \in ViewVectors
              /\ {"zero", "one", "three"} \subseteq SmallIntSet /\ Cardinality(SmallIntSet) = Len(SmallInts)
@@ -569,8 +577,17 @@ HostSites == {
    kinds |-> {"src", "cls"}, fnames |-> AnyArg, args |-> AnyArg],
   [dev |-> "Dev_ToPrimitiveBound", type |-> "TypeError", where |-> {"vm.py:_to_primitive"},
    kinds |-> {"call", "src", "cls"}, fnames |-> AnyArg, args |-> AnyArg],
+  \* StringToNumber of a radix-prefixed text ("0x" + hundreds of digits): float(int(text, 16)) beyond the doubles
   [dev |-> "Dev_RadixStringOverflow", type |-> "OverflowError", where |-> {"values.py:_string_to_number"},
    kinds |-> {"call"}, fnames |-> AnyArg, args |-> RadixTexts],
+  \* `key in array` converts a key made of digits with int(): the host's limit of 4300 digits
+  [dev |-> "Dev_InOperatorDigits", type |-> "ValueError", where |-> {"vm.py:_execute_opcode"},
+   kinds |-> {"call"}, fnames |-> {"op:in"}, args |-> {"t_dec"}],
+  \* String.prototype.repeat multiplies the host string by any finite count: a result no host can hold
+  [dev |-> "Dev_RepeatCount", type |-> "OverflowError", where |-> {"vm.py:repeat"},
+   kinds |-> {"call"}, fnames |-> {"repeat"}, args |-> {"e21", "s_e21"}],
+  [dev |-> "Dev_RepeatCount", type |-> "MemoryError", where |-> {"vm.py:repeat"},
+   kinds |-> {"call"}, fnames |-> {"repeat"}, args |-> {"p53", "s_p53"}],
   [dev |-> "Dev_RegExpError", type |-> "RegExpError", where |-> {"parser.py:parse", "parser.py:_parse_alternative", "parser.py:_parse_escape",
                                                                 "parser.py:_parse_atom", "parser.py:_parse_quantifier", "parser.py:_parse_group",
                                                                 "parser.py:_parse_char_class", "parser.py:_parse_term", "parser.py:_parse_disjunction"},
